@@ -98,14 +98,18 @@ def reg_class(reg, name):
     raise KeyError(name)
 
 
-def request_class(errs, kind, n, status=500):
+def request_class(errs, kind, n, status=500, pool=False):
     """class raised by RpcNode.request when the node answers n times <status> with this error list (kind permanent: answered once; temporary: retried until exhausted)"""
     import json as _json
     from pytezos.rpc.node import RpcNode
     body = _json.dumps([{'id': '.'.join(i), 'kind': kind} for i in errs])
     boundary.reset([boundary.make_response(status, 'application/json', body) for _ in range(n)])
     try:
-        RpcNode('http://c27.invalid').request('GET', 'chains/main/blocks/head')
+        if pool:      # the same answer through the node-pool entry point (a list of URIs)
+            from pytezos.rpc.node import RpcMultiNode
+            RpcMultiNode(['http://c27a.invalid', 'http://c27b.invalid']).request('GET', 'chains/main/blocks/head')
+        else:
+            RpcNode('http://c27.invalid').request('GET', 'chains/main/blocks/head')
         return None, 0
     except Exception as e:   # noqa
         return type(e), sum(1 for ev in boundary.LOG if ev[0] == 'send')
@@ -146,12 +150,12 @@ def run(ctx):
             nreq += 1
             want = reg_class(reg, st['class'])
             transient_ok = not any(e[0] == 'proto' for e in errs)
-            for kind, n, status in (('permanent', 1, 500), ('permanent', 1, (400, 403, 409, 410)[nreq % 4])) + ((('temporary', 12, 500),) if transient_ok else ()):
-                got, sent = request_class(errs, kind, n, status)
-                ctx.count(('request', errs, kind, status), nontrivial=True)
+            for kind, n, status, pool in (('permanent', 1, 500, False), ('permanent', 1, 500, True), ('permanent', 1, (400, 403, 409, 410)[nreq % 4], False)) + ((('temporary', 12, 500, False),) if transient_ok else ()):
+                got, sent = request_class(errs, kind, n, status, pool)
+                ctx.count(('request', errs, kind, status, pool), nontrivial=True)
                 ctx.replayed += 1
                 if got is not want:
-                    ctx.mismatch('C27:request:%s:%s:wrong-class' % (kind, '5xx' if status >= 500 else '4xx'), 'node answers %d with the %s errors %s (%d answers sent): the request raised %s, the class of the list is %s' % (
+                    ctx.mismatch('C27:request:%s:%s:wrong-class%s' % (kind, '5xx' if status >= 500 else '4xx', ':node-pool' if pool else ''), 'node answers %d with the %s errors %s (%d answers sent): the request raised %s, the class of the list is %s' % (
                         status, kind, ['.'.join(e) for e in errs], sent, getattr(got, '__name__', got), want.__name__), {'errs': to_json(errs), 'class': st['class'], 'request': kind, 'status': status})
     # ---- classes registered later: "registered" means registered at the time of the call, also for ids that were resolved before ----
     reg2 = register_late()
